@@ -401,6 +401,8 @@ def gen_sweep_case(seed, idx):
     rnd = random.Random("c19-sweep-%d-%d" % (seed, idx))
     K = rnd.choice([1, 2, 2, 3, 3, 4])
     n = rnd.choice([rnd.randint(1, 12), rnd.randint(13, 120), rnd.randint(121, 500)])
+    if idx % 4 == 1:
+        n = max(n, rnd.randint(40, 500))
     dist = rnd.choice(["normal", "uniform", "heavy", "lattice", "constant", "drift"])
     offs = [rnd.choice(OFFSETS) for _ in range(K)]
     sprs = [rnd.choice(SPREADS) for _ in range(K)]
@@ -426,7 +428,22 @@ def gen_sweep_case(seed, idx):
             row.append(offs[i] + sprs[i] * v)
         X.append(tuple(row))
     calls, left = [], n
-    style = rnd.choice(["mixed", "one_chunk", "small"])
+    big = 0
+    if idx % 4 == 1:
+        # every 4th case: update_from_it(ndarray of >= 32 values) into accumulators that already hold samples
+        # (feed() passes an ndarray for call positions 2, 6, 10, ..)
+        style = "ndarray_big"
+        while left:
+            if len(calls) % 4 == 2 and left >= 32:
+                L = rnd.randint(32, min(left, 200))
+                big += 1
+            else:
+                L = rnd.choice([0, 1, 2])
+            L = min(L, left)
+            calls.append(L)
+            left -= max(L, 1)
+    else:
+        style = rnd.choice(["mixed", "one_chunk", "small"])
     while left:
         if style == "one_chunk":
             L = left
@@ -435,11 +452,14 @@ def gen_sweep_case(seed, idx):
         else:
             L = rnd.choice([0, 0, 1, rnd.randint(2, 60)])
         L = min(L, left)
+        if L >= 32 and len(calls) % 4 == 2:
+            big += 1
         calls.append(L)
         left -= max(L, 1)
     perm = list(range(1, n + 1))
     rnd.shuffle(perm)
-    return dict(kind="sweep", seed=seed, idx=idx, k=K, n=n, dist=dist, offsets=offs, spreads=sprs), X, calls, perm
+    return dict(kind="sweep", seed=seed, idx=idx, k=K, n=n, dist=dist, offsets=offs, spreads=sprs,
+                ndarray_chunks_ge32=big), X, calls, perm
 
 
 def check_sweep_case(arg, classes=None):
@@ -593,11 +613,12 @@ def gen_noisy_case(seed, idx):
     return dict(kind="noisy", seed=seed, idx=idx, rtol=rtol, tol_scale=ts, mn=mn, mx=mx, gen=kind, mu=mu, sd=sd), script
 
 
-def check_noisy_case(arg):
-    seed, idx = arg
-    meta, script = gen_noisy_case(seed, idx)
+def run_generated(meta, script, flavour, tag):
+    """One run of estimate_from_repeats on a generated script; the oracle (prefix statistics, exact
+    predicate per prefix) is computed here with Fractions - the rule itself is RunStats.tla's
+    (NeverExceeds, ExactlyDrawn, StopSound)."""
     rtol, ts, mn, mx = meta["rtol"], meta["tol_scale"], meta["mn"], meta["mx"]
-    fr = [Fraction(v) for v in script]
+    fr = [Fraction(script[i % len(script)]) for i in range(mx)]
     pre, S, Q = [], Fraction(0), Fraction(0)
     for k, v in enumerate(fr, 1):
         S += v
@@ -613,14 +634,63 @@ def check_noisy_case(arg):
         if i >= mx - 1:
             model_n = i + 1
     worst = {}
-    flavour = FLAVOURS[idx % 3]
     try:
         rs, ncalls, samples, _ = drive(script, rtol, ts, mn, mx, flavour)
-        bad, drift = judge_stop(rs, ncalls, samples, script, rtol, ts, mn, mx, pre, model_n, worst, "noisy/" + flavour)
+        bad, drift = judge_stop(rs, ncalls, samples, script, rtol, ts, mn, mx, pre, model_n, worst, tag + "/" + flavour)
     except Exception as e:  # noqa
-        bad, drift = [dict(where="noisy", cls="estimate_from_repeats", quantity="raised",
+        bad, drift = [dict(where=tag, cls="estimate_from_repeats", quantity="raised",
                            got="%s: %s" % (type(e).__name__, e), want="a result")], None
-    return meta, bad, drift, worst
+    return dict(meta, model_n=model_n), bad, drift, worst
+
+
+def check_noisy_case(arg):
+    seed, idx = arg
+    meta, script = gen_noisy_case(seed, idx)
+    return run_generated(meta, script, FLAVOURS[idx % 3], "noisy")
+
+
+# long runs: sizes TLC's 32-bit integers cannot reach (see RunStats.tla); the stopping tests of a run
+# must stay sound however long it gets
+LONG_MX = [1025, 1026, 1500, 2050, 2051, 3001, 4099, 4100]
+LONG_LATE = [   # (mx, mn, rtol, tol_scale, mu, sd, generator): first convergence well beyond 1024 samples
+    (5000, 5, 0.01, 0.0, 1.0, 0.45, "noisy"),
+    (6000, 0, 0.02, 1.0, 3.0, 3.2, "noisy"),
+    (3000, 10, 0.001, 1.0, 10.0, 1.0, "deterministic"),
+    (8200, 5, 0.005, 0.0, 2.0, 0.6, "noisy"),
+]
+
+
+def long_count(thorough):
+    return (2 * len(LONG_MX) + len(LONG_LATE)) * (5 if thorough else 1)
+
+
+def gen_long_case(seed, idx):
+    rnd = random.Random("c19-long-%d-%d" % (seed, idx))
+    per = 2 * len(LONG_MX) + len(LONG_LATE)
+    j = idx % per
+    if j < 2 * len(LONG_MX):
+        mx = LONG_MX[j // 2]
+        if j % 2 == 0:      # scripted: a short integer script served cyclically, rtol = 0 never converges
+            script = [float(rnd.choice([-3, -2, -1, 0, 1, 2, 3])) for _ in range(rnd.randint(5, 9))] + [1.0, -2.0]
+            meta = dict(rtol=0.0, tol_scale=1.0, mn=rnd.choice([0, 5]), mx=mx, gen="scripted-cyclic", expect="limit")
+        else:               # noisy: err ~ 1/sqrt(n) stays far above rtol*(|mean| + tol_scale)
+            script = [1.0 + rnd.gauss(0, 1) for _ in range(mx)]
+            meta = dict(rtol=1e-4, tol_scale=rnd.choice([0.0, 1.0]), mn=rnd.choice([0, 5, 30]), mx=mx, gen="noisy", expect="limit")
+    else:
+        mx, mn, rtol, ts, mu, sd, gen = LONG_LATE[j - 2 * len(LONG_MX)]
+        if gen == "noisy":
+            script = [mu + sd * rnd.gauss(0, 1) for _ in range(mx)]
+        else:
+            ph = rnd.uniform(0, 1)
+            script = [mu + sd * math.sin(ph + 0.7 * t) / (1 + t % 5) for t in range(mx)]
+        meta = dict(rtol=rtol, tol_scale=ts, mn=mn, mx=mx, gen=gen, expect="late")
+    return dict(meta, kind="long", seed=seed, idx=idx), script
+
+
+def check_long_case(arg):
+    seed, idx = arg
+    meta, script = gen_long_case(seed, idx)
+    return run_generated(meta, script, FLAVOURS[idx % 3], "long")
 
 
 # ---------------------------------------------------------------------------
@@ -791,6 +861,11 @@ def run(rep):
         Samples=tuples(range(-3, 4)), MaxLen=60,
         Params=param_set([(1, 10), (1, 5), (1, 2), (1, 1)], [(0, 1), (1, 1), (5, 1)], [0, 3, 5, 10], [8, 20, 40, 60]))
 
+    # the stop machine beyond 1024 draws: samples +-1 keep (n+1)*u < 2^31 up to n = 1289; rtol = 0 never converges
+    job("simulate stop long", "stop", emit=True,
+        tlc_kw=dict(simulate=dict(num=2 if not thorough else 8), depth=4 * 1280 + 8, seed=seed),
+        Samples=tuples((-1, 1)), MaxLen=1280, Params=param_set([(0, 1)], [(0, 1), (1, 1)], [5, 20], [1100, 1201, 1280]))
+
     def _run(j):
         label, machine, emit, tkw, expect, kw = j
         name = "MC_RS_" + "".join(ch if ch.isalnum() else "_" for ch in label)
@@ -847,7 +922,7 @@ def run(rep):
     shown = {}
 
     def sample(kind, ok, value):
-        if ok and shown.get(kind, 0) < 2 - (kind in ("sweep", "noisy")):
+        if ok and shown.get(kind, 0) < 2 - (kind in ("sweep", "noisy", "long", "stop")):
             shown[kind] = shown.get(kind, 0) + 1
             return value
         return None
@@ -873,13 +948,18 @@ def run(rep):
             rep.add_violation(dict(c, failing=b), _what(b), key=_key(b, "stop"))
     # beyond the model
     nsweep = 4000 if thorough else 400
+    nbig = 0
     for meta, bad, worst in common.pmap(check_sweep_case, [(seed, i) for i in range(nsweep)]):
         _merge_worst(worst_sweep, worst)
+        nbig += meta["ndarray_chunks_ge32"]
         rep.add_case(["sweep", meta["seed"], meta["idx"]], nontrivial=meta["n"] >= 2, traces=4,
                      sample=sample("sweep", True, meta))
         for b in bad[:3]:
             nviol += 1
             rep.add_violation(dict(meta, failing=b), _what(b), key=_key(b, "sweep"))
+    if nbig < 100:
+        raise RuntimeError("vacuous: only %d update_from_it(ndarray of >= 32 values) calls into non-empty accumulators" % nbig)
+    rep.extra["ndarray_chunks_ge32_into_nonempty_accumulators"] = nbig * 4   # x 2 orders x (RunningStatistics..Matrix), at least
     nnoisy = 20000 if thorough else 3000
     for meta, bad, drift, worst in common.pmap(check_noisy_case, [(seed, i) for i in range(nnoisy)]):
         _merge_worst(worst_stop, worst)
@@ -889,6 +969,32 @@ def run(rep):
         for b in bad[:3]:
             nviol += 1
             rep.add_violation(dict(meta, failing=b), _what(b), key=_key(b, "noisy"))
+    nlong, late_seen, limit_seen = long_count(thorough), 0, 0
+    for meta, bad, drift, worst in common.pmap(check_long_case, [(seed, i) for i in range(nlong)]):
+        _merge_worst(worst_stop, worst)
+        if meta["expect"] == "limit":
+            if meta["model_n"] != meta["mx"]:
+                raise RuntimeError("long run %r was generated not to converge, the exact oracle says %r" % (meta, meta["model_n"]))
+            limit_seen += 1
+        elif meta["model_n"] is not None:
+            if not 1024 < meta["model_n"] < meta["mx"]:
+                raise RuntimeError("long run %r was generated to converge late, the exact oracle says %r" % (meta, meta["model_n"]))
+            late_seen += 1
+        rep.add_case(["long", meta["seed"], meta["idx"]], sample=sample("long", meta["expect"] == "late", meta))
+        if drift:
+            drifts.append(drift)
+        for b in bad[:3]:
+            nviol += 1
+            rep.add_violation(dict(meta, failing=b), _what(b), key=_key(b, "long"))
+    if limit_seen < 2 * len(LONG_MX) or late_seen < 2:
+        raise RuntimeError("vacuous: long runs: %d to the limit, %d converging late" % (limit_seen, late_seen))
+    rep.extra["long_runs"] = dict(
+        note="estimate_from_repeats runs of 1025..8200 samples (max_samples in %r to the limit with scripted-cyclic and noisy "
+             "generators; %d converging after > 1024 samples). TLC's 32-bit integers bound the stop machine to n <= 1289 "
+             "(samples +-1; see 'simulate stop long'), so beyond that these sizes are harness-only: the rule checked is "
+             "RunStats.tla's NeverExceeds / ExactlyDrawn / StopSound, the prefix statistics and the exact predicate come "
+             "from Fractions in the harness" % (LONG_MX, late_seen),
+        runs=nlong, to_the_limit=limit_seen, converging_late=late_seen)
     if drifts:
         rep.note("model_drift: %d run(s) of estimate_from_repeats stopped at a count other than the pinned code's while "
                  "satisfying the property, e.g. %s" % (len(drifts), drifts[0]))
@@ -935,6 +1041,8 @@ def replay(rep, case):
         _, bad, _ = check_sweep_case((case["seed"], case["idx"]))
     elif kind == "noisy":
         _, bad, drift, _ = check_noisy_case((case["seed"], case["idx"]))
+    elif kind == "long":
+        _, bad, drift, _ = check_long_case((case["seed"], case["idx"]))
     else:
         raise RuntimeError("unknown case kind %r" % (kind,))
     for b in bad:
